@@ -763,7 +763,79 @@ def _expected_query(mods, sub):
 
 # ------------------------------------------------------------------------------------
 
+def run_real_loopback(case) -> RunResult:
+    """The one non-simulated run: a real websockets server on 127.0.0.1 (real sockets, real event loop, 10 s wall cap).
+    Reported as 'real I/O, outcome only'."""
+    import websockets
+    from websockets.asyncio.server import serve
+    res = RunResult()
+    mods = fixture.mods()
+    variant = case["params"].get("variant", "plain")
+    pkg = mods["fx_async"] if variant == "plain" else mods["fx_async_otel"]
+    seen: Dict[str, Any] = {}
+
+    async def handler(ws):
+        seen["subprotocol"] = ws.subprotocol
+        seen["x-client"] = ws.request.headers.get("X-Client")
+        seen["origin"] = ws.request.headers.get("Origin")
+        init = json.loads(await ws.recv())
+        seen["init"] = init
+        await ws.send(json.dumps({"type": "connection_ack"}))
+        sub_ = json.loads(await ws.recv())
+        seen["subscribe"] = sub_.get("type")
+        for i in (1, 2):
+            await ws.send(json.dumps({"type": "next", "id": sub_["id"], "payload": {"data": {"counter": i}}}))
+        await ws.send(json.dumps({"type": "ping"}))
+        await ws.send(json.dumps({"type": "complete", "id": sub_["id"]}))
+        try:
+            async for m in ws:
+                seen.setdefault("late", []).append(json.loads(m).get("type"))
+        except websockets.ConnectionClosed:
+            pass
+
+    async def main():
+        async with serve(handler, "127.0.0.1", 0, subprotocols=["graphql-transport-ws"]) as server:
+            port = server.sockets[0].getsockname()[1]
+            seen["server_started"] = True
+            kw = {}
+            if variant == "otel_rec":
+                kw["tracer"] = RecTracer()
+            client = pkg.Client(ws_url="ws://127.0.0.1:%d/graphql" % port, ws_headers={"X-Client": "c1"},
+                                ws_origin="http://origin.test", ws_connection_init_payload={"token": "t"}, **kw)
+            got = []
+            async for item in client.counter(from_=3):
+                got.append(item.counter)
+            await asyncio.sleep(0.05)
+            await client.http_client.aclose()
+            return got
+
+    try:
+        got = asyncio.run(asyncio.wait_for(main(), 10.0))
+        outcome = ("ok", got)
+    except BaseException as e:  # noqa
+        outcome = ("exc", type(e).__name__, str(e)[:200])
+    started = seen.get("server_started", False)
+    ok = (outcome == ("ok", [1, 2]) and seen.get("subprotocol") == "graphql-transport-ws" and seen.get("x-client") == "c1"
+          and seen.get("origin") == "http://origin.test" and seen.get("init") == {"type": "connection_init", "payload": {"token": "t"}}
+          and seen.get("subscribe") == "subscribe" and seen.get("late") == ["pong"])
+    if not seen.pop("server_started", False):
+        res.observations.append("real-loopback-unavailable:%s" % (outcome[1] if outcome[0] == "exc" else "?"))
+        res.sig = res.digest = "real-loopback-unavailable"
+        return res
+    if not ok:
+        res.violations.append(Violation("real-loopback-handshake", "[%s] against a real websockets server on 127.0.0.1: outcome %r, server saw %r" % (
+            variant, outcome, seen), {}))
+    res.bump("real_io.loopback_runs")
+    res.sig = "real-loopback-%s-%s" % (variant, ok)
+    res.digest = res.sig
+    res.nontrivial = True
+    res.trace = ["real loopback run (real sockets, outcome only): outcome=%r server saw=%r" % (outcome, seen)]
+    return res
+
+
 def run_case(case, ch: Choices) -> RunResult:
+    if case["params"].get("mode") == "real_loopback":
+        return run_real_loopback(case)
     res = RunResult()
     cfg, recs, info = simulate(case, ch)
     if info.get("harness_exc"):
@@ -881,6 +953,9 @@ def plan(tier, base_seed) -> Plan:
                     "params": {"mode": "enum", "phase": phase, "kinds": kinds, "variant": v, "alt": alt,
                                "via": vias[(i // 3) % 3], "vary": True}}
         j = i - n_enum
+        if j >= n_seeded - 2:
+            v_ = ["plain", "otel_rec"][j - (n_seeded - 2)]
+            return {"id": "real-loopback-%s" % v_, "seed": 0, "params": {"mode": "real_loopback", "variant": v_}}
         return {"id": "seeded-%d" % j, "seed": derive_seed(base_seed, PROPERTY, "seeded", j),
                 "params": {"mode": "seeded", "probe": (j % 10 == 9)}}
 
